@@ -410,7 +410,9 @@ impl<T> Arc<MaybeUninit<T>> {
 
     /// Obtain a mutable pointer to the stored `MaybeUninit<T>`.
     pub fn as_mut_ptr(&mut self) -> *mut MaybeUninit<T> {
-        unsafe { &mut (*self.ptr()).data }
+        // No `&mut` to the data is created here: the `Arc` may be shared, and
+        // other handles may hold references into it.
+        unsafe { ptr::addr_of_mut!((*self.ptr()).data) }
     }
 
     /// # Safety
